@@ -12,14 +12,14 @@ package announce
 
 // Data-structure invariant of a Receiver built by NewReceiver: the done
 // channel exists and is closed only once the receiver is marked closed.
-//@ spec func recvOK(r val) bool = r != nil && r.done != nil && lruOK(r.announceCache) && (closed(r.done) ==> r.closed) && r.outChan != nil && !closed(r.outChan) && r.done != r.outChan && (r.resend ==> r.sender != nil && r.sender.topic != nil)
+//@ spec func recvOK(r val) bool = r != nil && r.done != nil && lruOK(r.announceCache) && (closed(r.done) ==> r.closed) && r.outChan != nil && !closed(r.outChan) && r.done != r.outChan && (r.resend ==> r.sender != nil && r.sender.topic != nil) && (r.sender != nil ==> (r.sender.cancelPubSub != nil ==> r.sender.topic != nil))
 
 // Close: idempotent; every return leaves the mutex as it found it (implicit
 // balance obligation); close(done) at most once.
 //@ func (*Receiver).Close
 //@   property C16
 //@   requires recvOK(r) && !held(r.announceMutex)
-//@   modifies r.closed, closedflag(r.done)
+//@   modifies r.closed, closedflag(r.done), r.sender.cancelPubSub
 //@   ensures recvOK(r) && r.closed
 //@   requires r.cancelWatch != nil ==> r.watchDone != nil
 //@   requires r.cancelPubsub != nil ==> r.topic != nil
@@ -220,3 +220,18 @@ package announce
 //@   ensures result <==> old(has(l.cache, s))
 //@   ensures all(k, has(l.cache, k) <==> (old(has(l.cache, k)) && k != str(s)))
 //@   ensures all(e, e != 0 && g_in(e) == l.ll ==> g_rank(e) == old(g_rank(e)))
+
+// Send (C10): the same message - the CID given and the addresses given, set once - goes to every non-nil
+// sender in order, each exactly once unless the context was cancelled; nothing is sent for an undefined CID
+// or without senders; an error of any sender is reported.
+// (the senders' own preconditions are data-structure invariants of their types, established by their
+// constructors; they cannot be stated on the interface and are not checked at this dynamic call)
+//@ func Send
+//@   property C10
+//@   requires ctx != nil
+//@   at call SetAddrs: assert arg0.Cid == c && arg1 == addrs
+//@   at call Send: assert arg1 == ctx && arg2.Cid == c
+//@   ensures-local c == cid.Undef || len(senders) == 0 ==> result == nil && count("call:Sender.Send") == 0 && count("call:SetAddrs") == 0
+//@   ensures-local c != cid.Undef && len(senders) != 0 ==> count("call:SetAddrs") == 1
+//@   loop 1: invariant rangeindex < len(senders) && ctx != nil
+//@   loop 1: iteration ensures itercount("call:Sender.Send") == ite(senders[rangeindex] != nil, 1, 0)
